@@ -36,6 +36,7 @@ func c12(c *Ctx) {
 	// interface are emptied for both families (shared rule)
 	c01R11(c)
 	ruleMakeThenAppend(c, "C12.R6", fns, "configuration entries (routes, addresses, interfaces) handed from the daemon to the plugin")
+	c12R8(c)
 }
 
 func c12R1(c *Ctx) {
@@ -785,4 +786,48 @@ func parentStmt(fn *FuncInfo, n ast.Node) ast.Stmt {
 		}
 	}
 	return st
+}
+
+// R8: the plugin recovers exactly the daemon's extra routes. In parseSetupConf every route of the
+// allocation is appended to the configuration unless the function fails; nothing skips an entry.
+func c12R8(c *Ctx) {
+	p := c.P
+	c.Rule("C12.R8", "parseSetupConf: every extra route the daemon sent becomes a route of the set-up configuration (the append in the loop over the allocation's routes is reached in every iteration that does not fail)")
+	fn := p.Func(pluginPkg, "parseSetupConf")
+	if fn == nil {
+		c.Unres("C12.R8", "parseSetupConf", "not found")
+		return
+	}
+	info := fn.Info()
+	n := 0
+	ast.Inspect(fn.Decl.Body, func(k ast.Node) bool {
+		rs, ok := k.(*ast.RangeStmt)
+		if !ok {
+			return true
+		}
+		call, ok := ast.Unparen(derefExpr(fn, rs.X)).(*ast.CallExpr)
+		if !ok {
+			return true
+		}
+		if f := Callee(info, call); f == nil || f.Name() != "GetExtraRoutes" {
+			return true
+		}
+		n++
+		var app ast.Node
+		ast.Inspect(rs.Body, func(j ast.Node) bool {
+			if as, ok := j.(*ast.AssignStmt); ok && len(as.Rhs) == 1 {
+				if _, isApp := isBuiltinCall(info, as.Rhs[0], "append"); isApp && app == nil {
+					app = as
+				}
+			}
+			return true
+		})
+		if app == nil {
+			c.Bad("C12.R8", "parseSetupConf: routes are collected", p.Pos(rs), fn.Key(), "routes = append(routes, …) in the loop", "no append")
+			return false
+		}
+		c.RequireReachedF("C12.R8", "parseSetupConf: no extra route is skipped", fn, rs.Body, app, "always", func(e *FactEngine) (*Formula, error) { return fT, nil })
+		return false
+	})
+	c.Floor("C12.R8", "loops over the allocation's extra routes", 1, n)
 }
